@@ -365,6 +365,24 @@ def check_tree_contract():
             if isinstance(v, VMaybeNone):
                 return v.isnone, v.val.t
             return z3.BoolVal(False), v.t
+        # failure: the prefix handed back excludes every string that starts with it (used by get_allowed_shapes to prune)
+        pc_ = res.items[1]
+        if isinstance(pc_, VRef):
+            P = S.seq(pc_)
+            m = P.len
+            q = z3.Int("q!pc")
+            out.append(("on failure part_considered is a prefix s[:m], 2 <= m <= n, and either it is the whole string or its first m-1 entries already complete a tree (NEED(m-1) = 0 with m-1 < n)",
+                        z3.Implies(z3.And(z3.Not(succ), n > 1), z3.And(2 <= m, m <= n, z3.ForAll([q], z3.Implies(z3.And(0 <= q, q < m), P.get(q).t == s.get(q).t)),
+                                                                      z3.Or(m == n, z3.And(NEED(m - 1) == 0, m - 1 < n))))))
+        elif not isinstance(pc_, VNone):
+            from pyvc.values import VMaybeNone as _VM
+            if isinstance(pc_, _VM) and isinstance(pc_.val, VRef):
+                P = S.seq(pc_.val)
+                m = P.len
+                q = z3.Int("q!pc")
+                out.append(("on failure part_considered is a prefix s[:m], 2 <= m <= n, and either it is the whole string or its first m-1 entries already complete a tree (NEED(m-1) = 0 with m-1 < n)",
+                            z3.Implies(z3.And(z3.Not(succ), n > 1), z3.And(z3.Not(pc_.isnone), 2 <= m, m <= n, z3.ForAll([q], z3.Implies(z3.And(0 <= q, q < m), P.get(q).t == s.get(q).t)),
+                                                                          z3.Or(m == n, z3.And(NEED(m - 1) == 0, m - 1 < n))))))
         out.append(("on success every non-leaf node points to existing later nodes (left[k] = k+1, k < right[k] < n) and types are the arities",
                     z3.Implies(z3.And(succ, n > 1), z3.ForAll([k], z3.Implies(z3.And(0 <= k, k < n), z3.And(
                         f("type", k)[1] == s.get(k).t,
@@ -759,4 +777,288 @@ def stf_labels_contract():
                                         "all_tree": mk_all_tree},
                  requires=requires, ensures=ensures, setup=setup, region=_stf_labels_region, raises=lambda S, a, e: z3.BoolVal(False))
     c.region_name = "labels: every node gets the label of its arity class, in order"
+    return c
+
+
+# ------------------------------------------------------------ find_additional_trees: the rewriting driver (C11)
+Fn_ = __import__("pyvc.values", fromlist=["Fn"]).Fn
+RW = z3.Function("rewrite.step", Fn_, Fn_, Fn_, z3.BoolSort())       # RW(parent labels, labels, shape): one update_* call produced (labels, shape) from parent
+CTF = z3.Function("check_tree.tree", Fn_, Fn_)                        # the Node list check_tree builds for a shape
+ITEM = z3.Function("opaque.item", Fn_, z3.IntSort(), Fn_)
+
+
+def fat_contract(variant="ok"):
+    """find_additional_trees(tree, labels, basis): the driver around update_tree / update_sums (whose per-step contracts are assumed here and
+    checked by the bounded part: every (labels, shape) pair they return is a well-formed in-basis tree equal to the tree they were given).
+    Proved for the driver, for any number of rounds:
+      * the two returned lists have the same length and entry 0 is the tree handed in;
+      * every other entry k has a parent entry PAR(k) < k such that (new_labels[k], shape_k) was returned by ONE update_* call on
+        new_labels[PAR(k)], and new_tree[k] is the Node list check_tree builds for that same shape_k (labels and tree stay in lock step);
+      * no label list occurs twice.
+    With the step contract this gives C11 by induction over k (lemma `chain`).  Termination is not proved (A-term).
+    variant: 'ok' initial_sympify returns, 'raises' it raises (the sum rewrite is then discarded)."""
+    from pyvc.engine import LoopSpec
+    from pyvc.values import VFn, VTuple, VMaybeNone, VBool, VNone, ite
+    from pyvc.models import PyRaise
+    GT_F = T("ghostfn", z3.IntSort(), Fn_)
+    GT_I = T("ghostfn", z3.IntSort(), z3.IntSort())
+
+    def fnv(v):
+        return v.val.t if isinstance(v, VMaybeNone) else v.t
+
+    def upd_model(name):
+        def m(eng, st, a, k, node):
+            par = a[1]
+            st.ghost = dict(st.ghost)
+            st.ghost["par_labels"] = par.t
+            nm = fresh_name(name)
+            L, s, n = VFn(z3.Const(nm + ".L", Fn_)), VFn(z3.Const(nm + ".s", Fn_)), z3.Int(nm + ".n")
+            isnone = z3.Bool(nm + ".none")
+            j = z3.Int("j!st")
+            # assumed per-step contract (bounded part): a returned (labels, shape) pair is ONE rewrite of the tree that was handed in
+            st.assume(z3.Implies(z3.Not(isnone), z3.And(n >= 1, z3.Implies(n == 1, RW(par.t, L.t, s.t)),
+                                                        z3.Implies(n > 1, z3.ForAll([j], z3.Implies(z3.And(0 <= j, j < n), RW(par.t, ITEM(L.t, j), ITEM(s.t, j))))))))
+            return VTuple([L, VMaybeNone(isnone, s), VInt(n)])
+        return m
+
+    def check_tree_model(eng, st, a, k, node):
+        sh = a[0]
+        if isinstance(sh, VMaybeNone):
+            eng.oblige(st, "check_tree is called with a shape, not None", z3.Not(sh.isnone), "safety", node)
+        t = fnv(sh)
+        st.ghost = dict(st.ghost)
+        st.ghost["last_shape"] = t
+        return VTuple([VBool(z3.Bool(fresh_name("ct.ok"))), VNone(), VFn(CTF(t))])
+
+    def sympify_model(eng, st, a, k, node):
+        if variant == "raises":
+            raise PyRaise("Exception")
+        return VTuple([VFn(z3.Const(fresh_name("strs"), Fn_)), eng.fresh(T.list(T.fn), "sym", st)])
+
+    def setup(eng, st, args):
+        eng.models["update_tree"] = upd_model("ut")
+        eng.models["update_sums"] = upd_model("us")
+        eng.models["check_tree"] = check_tree_model
+        eng.models["node_to_string"] = lambda e, s, a, k, n: VLabel(z3.Const(fresh_name("fstr"), Label))
+        eng.models["simplifier.initial_sympify"] = sympify_model
+        st.env["__shp"] = eng.fresh(GT_F, "SHP", st)
+        st.env["__par"] = eng.fresh(GT_I, "PAR", st)
+        st.ghost["tree0"], st.ghost["labels0"] = args["tree"], args["labels"]
+
+    def INV(S, st, extra_len=None, inner=False):
+        nt, nl, ti = S.seq(S.var("new_tree")), S.seq(S.var("new_labels")), S.seq(S.var("try_idx"))
+        SHP, PAR = S.var("__shp").obj, S.var("__par").obj
+        q, q2 = z3.Int("q!fa"), z3.Int("q2!fa")
+        out = [("the three lists have one entry per tree, at least the original", z3.And(nt.len == nl.len, ti.len == nl.len, nl.len >= 1)),
+               ("entry 0 is the tree handed in", z3.And(nl.get(z3.IntVal(0)).t == st.ghost["labels0"].t, nt.get(z3.IntVal(0)).t == st.ghost["tree0"].t)),
+               ("every other entry was produced by one rewriting step from an earlier entry, and its Node list was built from the shape returned with its labels",
+                z3.ForAll([q], z3.Implies(z3.And(1 <= q, q < nl.len), z3.And(0 <= PAR(q), PAR(q) < q, RW(nl.get(PAR(q)).t, nl.get(q).t, SHP(q)), nt.get(q).t == CTF(SHP(q)))))),
+               ("no label list occurs twice", z3.ForAll([q, q2], z3.Implies(z3.And(0 <= q, q < q2, q2 < nl.len), nl.get(q).t != nl.get(q2).t)))]
+        if "old_len" in st.env and extra_len:
+            out.append(("the lists only grow during a round", z3.And(S.var("old_len").t >= 0, S.var("old_len").t <= nl.len)))
+        if inner and "par_labels" in st.ghost:
+            i = S.var("i").t
+            out.append(("the entry being rewritten is still where it was (appending does not move earlier entries)",
+                        z3.And(0 <= i, i < nl.len, nl.get(i).t == st.ghost["par_labels"])))
+        return out
+
+    def loop_select(node):
+        is_while = isinstance(node, _ast.While)
+        inner_j = isinstance(node, _ast.For) and isinstance(node.target, _ast.Name) and node.target.id == "j"
+        ls = LoopSpec(lambda S, st: INV(S, st, extra_len=not is_while, inner=inner_j),
+                      havoc_types={"L": T.fn, "s": T.opt(T.fn), "n": T.int, "t": T.fn, "_": T.fn, "f": T.list(T.label), "sym": T.list(T.fn), "max_param": T.int,
+                                   "old_len": T.int, "i": T.int, "j": T.int})
+        ls.ghost = ["__shp", "__par"]
+        return ls
+
+    def on_append(S, st, node):
+        """ghost update right before `new_labels.append(X)`: the new entry's parent is the entry being rewritten, its shape the one just passed to check_tree"""
+        k = S.seq(S.var("new_labels")).len
+        sh = st.ghost.get("last_shape")
+        if sh is None:
+            raise Unsupported("new_labels.append without a preceding check_tree call")
+        SHP, PAR = S.var("__shp").obj, S.var("__par").obj
+        i = S.var("i").t
+        g1 = VConc("ghostfn", lambda q, SHP=SHP, k=k, sh=sh: z3.If(q == k, sh, SHP(q)))
+        g1.gtype = GT_F
+        g2 = VConc("ghostfn", lambda q, PAR=PAR, k=k, i=i: z3.If(q == k, i, PAR(q)))
+        g2.gtype = GT_I
+        st.env["__shp"], st.env["__par"] = g1, g2
+
+    def ensures(S, a, res):
+        if not (isinstance(res, VTuple) and len(res.items) == 2):
+            raise Unsupported("find_additional_trees no longer returns a pair")
+        st = S.st
+        st.env = dict(st.env)
+        st.env["new_tree"], st.env["new_labels"] = res.items
+        return INV(S, st)
+
+    c = Contract("find_additional_trees", {"tree": T.fn, "labels": T.fn, "basis_functions": T.fn}, ensures=ensures, setup=setup,
+                 raises=lambda S, a, e: z3.BoolVal(False))
+    c.loop_select = loop_select
+    c.stmt_hooks = [(lambda n: isinstance(n, _ast.Expr) and isinstance(n.value, _ast.Call) and getattr(n.value.func, "attr", None) == "append"
+                     and getattr(n.value.func.value, "id", None) == "new_labels", on_append)]
+    return c
+
+
+def fat_chain_lemma():
+    """C11 from the driver's postcondition and the step contract, by induction over the entry index k:
+       step contract: RW(p, l, s) => WF(l, s) and EQ(p, l);  EQ reflexive and transitive
+       driver:        every k >= 1 has PAR(k) < k with RW(lab[PAR k], lab[k], SHP k)
+       claim:         every entry k is well formed (k >= 1) and equal to entry 0."""
+    lab = z3.Function("lab", z3.IntSort(), Fn_)
+    SHP = z3.Function("SHPl", z3.IntSort(), Fn_)
+    PAR = z3.Function("PARl", z3.IntSort(), z3.IntSort())
+    WF = z3.Function("wellformed", Fn_, Fn_, z3.BoolSort())
+    EQ = z3.Function("same_function", Fn_, Fn_, z3.BoolSort())
+    n, k, q = z3.Ints("n k q")
+    a, b, c_, s = z3.Consts("a b c s", Fn_)
+    step = z3.ForAll([a, b, s], z3.Implies(RW(a, b, s), z3.And(WF(b, s), EQ(a, b))))
+    refl = z3.ForAll([a], EQ(a, a))
+    trans = z3.ForAll([a, b, c_], z3.Implies(z3.And(EQ(a, b), EQ(b, c_)), EQ(a, c_)))
+    drv = z3.ForAll([q], z3.Implies(z3.And(1 <= q, q < n), z3.And(0 <= PAR(q), PAR(q) < q, RW(lab(PAR(q)), lab(q), SHP(q)))))
+    hyp = z3.And(step, refl, trans, drv)
+    claim = lambda kk: z3.And(EQ(lab(z3.IntVal(0)), lab(kk)), z3.Implies(kk >= 1, WF(lab(kk), SHP(kk))))
+    return [("chain, base: entry 0 equals itself", z3.Implies(hyp, EQ(lab(z3.IntVal(0)), lab(z3.IntVal(0))))),
+            ("chain, step: if every earlier entry equals entry 0 then entry k is well formed and equals entry 0",
+             z3.Implies(z3.And(hyp, 1 <= k, k < n, z3.ForAll([q], z3.Implies(z3.And(0 <= q, q < k), claim(q)))), claim(k)))]
+
+
+# ------------------------------------------------------------------------------ get_allowed_shapes (C01)
+def allowed_shapes_contract():
+    """get_allowed_shapes(compl), rank 0: the rows of the result are exactly the valid arity strings of length compl, each once.
+
+    Validity is the Lukasiewicz condition on the content of a row (an uninterpreted predicate VAL of the row, tied to the verified contract
+    of check_tree by the lemmas `shape_lemmas`).  check_tree is used through that contract, restated for a row of the candidate matrix:
+        success  <=>  VAL(row);     on failure part_considered = row[:m], 2 <= m <= n, and every row that starts with it is invalid.
+    Facts about validity used (lemmas): a valid string of length > 1 does not start with 0, ends with 0 and does not have 2 in the
+    last-but-one place; validity depends on the content only.  itertools.product('012', repeat=n) enumerates every string once (A-ext).
+    Proved:  soundness (every returned row is valid), completeness (every valid string over {0,1,2} of length compl is a returned row)
+    and distinctness (no string is returned twice)."""
+    from pyvc.engine import LoopSpec
+    from pyvc.values import VBool, VTuple, VMaybeNone, H2D, HRec
+    from pyvc.models import CNT, IDX, RNK
+    NN = z3.Int("compl")
+    VALR = z3.Function("valid.row", z3.IntSort(), z3.BoolSort())            # validity of row k of the candidate matrix the loop runs over
+    SK = z3.Function("sk", z3.IntSort(), z3.IntSort())                      # an arbitrary string (Skolem) for the completeness claim
+    VAL_SK = z3.Bool("valid.sk")
+
+    def cand3(S):
+        return S.st.ghost["cand3"]
+
+    def check_tree_callsite(eng, st, a, k, node):
+        row = st.heap[a[0].addr]
+        C3 = st.ghost.get("cand3")
+        if C3 is None:
+            raise Unsupported("check_tree is called before the candidate matrix is fixed")
+        i = st.env["i"].t
+        q, c = z3.Int(fresh_name("q!ct")), z3.Int(fresh_name("c!ct"))
+        # requires of check_tree (its verified contract): entries 0/1/2, n >= 1, a longer string does not start with a leaf, a single node is a leaf
+        s2 = st.fork()
+        s2.pc = list(st.pc) + [0 <= c, c < row.len]
+        eng.oblige(s2, "requires of check_tree: arities are 0, 1 or 2", z3.And(row.get(c).t >= 0, row.get(c).t <= 2), "requires", node)
+        eng.oblige(st, "requires of check_tree: n >= 1; a string of more than one node does not start with a leaf; a single node is a leaf",
+                   z3.And(row.len >= 1, z3.Implies(row.len > 1, row.get(z3.IntVal(0)).t != 0), z3.Implies(row.len == 1, row.get(z3.IntVal(0)).t == 0)), "requires", node)
+        nm = fresh_name("ct")
+        succ = z3.Bool(nm + ".success")
+        m = z3.Int(nm + ".m")
+        pcv = eng.fresh(T.arr(T.int), nm + ".part", st)
+        P = st.heap[pcv.addr]
+        P.len = m
+        g3 = C3.get
+        st.assume(succ == VALR(i))
+        st.assume(z3.Implies(z3.And(z3.Not(succ), row.len > 1), z3.And(
+            2 <= m, m <= row.len, z3.ForAll([c], z3.Implies(z3.And(0 <= c, c < m), P.get(c).t == g3(i, c).t)),
+            # every row of the matrix that starts with the prefix is invalid (lemma L3 over the contract of check_tree)
+            z3.ForAll([q], z3.Implies(z3.And(0 <= q, q < C3.rows, z3.ForAll([c], z3.Implies(z3.And(0 <= c, c < m), g3(q, c).t == g3(i, c).t))), z3.Not(VALR(q)))))))
+        st.assume(z3.Implies(row.len == 1, succ))
+        tree = eng.fresh(T.list(T.fn), nm + ".tree", st)
+        return VTuple([VBool(succ), VMaybeNone(z3.And(succ, row.len == 1), pcv) if False else pcv, tree])
+
+    def setup(eng, st, args):
+        from pyvc import models_np2
+        models_np2.install(eng)
+        eng.models["check_tree"] = check_tree_callsite
+        st.env["rank"] = VInt(0)
+        st.env["comm"] = VConc("comm")
+
+    def hook_msk(S, st, node):
+        # `msk = np.ones(cand.shape[0], dtype=bool)`: the candidate matrix is fixed from here on
+        st.ghost = dict(st.ghost)
+        st.ghost["cand3"] = st.heap[S.var("cand").addr]
+        C3 = st.ghost["cand3"]
+        prod = S.eng._product
+        n = prod["n"]
+        k, c = z3.Int("k!sk"), z3.Int("c!sk")
+        # content determines validity (lemma): a row that equals the Skolem string is valid iff the string is
+        S.eng.axioms.append(z3.ForAll([k], z3.Implies(z3.And(0 <= k, k < C3.rows, z3.ForAll([c], z3.Implies(z3.And(0 <= c, c < n), C3.get(k, c).t == SK(c)))), VALR(k) == VAL_SK),
+                                      patterns=[VALR(k)]))
+
+    def inv(S, st):
+        i = S.i(S.var("__i"))
+        C3 = cand3(S)
+        msk = S.seq(S.var("msk"))
+        k = z3.Int("k!inv")
+        return [("msk has one entry per candidate", msk.len == C3.rows),
+                ("a candidate that has been struck out is invalid", z3.ForAll([k], z3.Implies(z3.And(0 <= k, k < C3.rows, z3.Not(msk.get(k).t)), z3.Not(VALR(k))))),
+                ("a candidate that was visited and is still in is valid", z3.ForAll([k], z3.Implies(z3.And(0 <= k, k < i, msk.get(k).t), VALR(k))))]
+
+    def requires(S, a):
+        return [("compl >= 1", a["compl"].t >= 1)]
+
+    def ensures(S, a, res):
+        eng, st = S.eng, S.st
+        if not isinstance(res, VRef) or not isinstance(st.heap[res.addr], H2D):
+            return [("returns the matrix of shapes", z3.BoolVal(False))]
+        RES = st.heap[res.addr]
+        C3 = cand3(S)
+        prod = eng._product
+        n, NP, PCH = prod["n"], prod["NP"], prod["PCH"]
+        iof = eng.label_fn("int_of")
+        out = [("one column per node", RES.cols == a["compl"].t)]
+        if not (RES.note and RES.note[0] == "filter"):
+            return out + [("the result is a row selection of the candidate matrix", z3.BoolVal(False))]
+        mfin, nrows = RES.note[1], RES.note[2]
+        r0, c0 = z3.Int(fresh_name("r!sk")), z3.Int(fresh_name("c!sk"))
+        src = IDX(mfin, nrows, r0)
+        out.append(("soundness: every returned row is a valid arity string (and is row src(r) of the candidate matrix)",
+                    z3.Implies(z3.And(0 <= r0, r0 < RES.rows), z3.And(0 <= src, src < C3.rows, VALR(src), z3.Implies(z3.And(0 <= c0, c0 < n), RES.get(r0, c0).t == C3.get(src, c0).t)))))
+        # completeness: an arbitrary valid string SK over {0,1,2} of length compl is a returned row
+        c = z3.Int("c!cmp")
+        sk_ok = z3.ForAll([c], z3.Implies(z3.And(0 <= c, c < n), z3.And(SK(c) >= 0, SK(c) <= 2)))
+        # A-ext (itertools.product): SK is one of the enumerated tuples -- instance of the completeness of the enumeration
+        pidx = z3.Int("pidx.sk")
+        digit = lambda t: z3.If(t == 0, eng.label_of("0"), z3.If(t == 1, eng.label_of("1"), eng.label_of("2")))
+        eng.axioms.append(z3.Implies(sk_ok, z3.And(0 <= pidx, pidx < NP, z3.ForAll([c], z3.Implies(z3.And(0 <= c, c < n), PCH(pidx, c) == digit(SK(c))), patterns=[PCH(pidx, c)]))))
+        # lemmas about validity (from the definition, see shape_lemmas): a valid string of length > 1 starts with a non-leaf, ends with a leaf and its
+        # last-but-one entry is not binary; a valid string of length 1 is the single leaf
+        eng.axioms.append(z3.Implies(z3.And(VAL_SK, sk_ok), z3.And(SK(n - 1) == 0, z3.Implies(n > 1, z3.And(SK(z3.IntVal(0)) != 0, SK(n - 2) != 2)))))
+        # the witness row: follow the string through the three column filters and the final mask
+        chain = []
+        o = RES
+        while getattr(o, "note", None) and o.note[0] == "filter":
+            chain.append((o.note[1], o.note[2]))
+            o = o.note[3] if len(o.note) > 3 else None
+            if o is None:
+                break
+        idx = pidx
+        for ma_, n_ in reversed(chain):
+            idx = RNK(ma_, n_, idx)
+        w = idx
+        out.append(("completeness: every valid string over {0,1,2} of length compl is one of the returned rows",
+                    z3.Implies(z3.And(VAL_SK, sk_ok), z3.And(0 <= w, w < RES.rows, z3.Implies(z3.And(0 <= c0, c0 < n), RES.get(w, c0).t == SK(c0))))))
+        r1, r2 = z3.Int(fresh_name("r1!sk")), z3.Int(fresh_name("r2!sk"))
+        # the column in which they differ: the one in which the two enumerated tuples they come from differ (witness of the enumeration's distinctness)
+        s1, s2 = r1, r2
+        for ma_, n_ in chain:
+            s1, s2 = IDX(ma_, n_, s1), IDX(ma_, n_, s2)
+        dcol = prod["DIFF"](s1, s2)
+        out.append(("distinctness: two different returned rows differ in some column",
+                    z3.Implies(z3.And(0 <= r1, r1 < r2, r2 < RES.rows), z3.And(0 <= dcol, dcol < n, RES.get(r1, dcol).t != RES.get(r2, dcol).t))))
+        return out
+
+    ls = LoopSpec(inv, havoc_types={"success": T.bool, "part_considered": T.arr(T.int), "tree": T.list(T.fn), "m": T.arr(T.int)})
+    c = Contract("get_allowed_shapes", {"compl": lambda e, s: VInt(NN)}, requires=requires, ensures=ensures, setup=setup,
+                 raises=lambda S, a, e: z3.BoolVal(False), hooks={"msk": hook_msk})
+    c.loop_select = lambda node: ls
     return c
